@@ -9,6 +9,7 @@ RULE = ("the C05 runs, judged field by field: addresses, ports, SYN vs SYN+ACK n
         "one admissible hint was available and had to be kept")
 ASSUMPTIONS = c05.ASSUMPTIONS + ["calls with an explicit uptime argument are excluded from the own-timestamp check (the argument overrides by design)"]
 EXHAUSTIVE = {}
+GEN_TIE = "imp"   # impersonate/tcp.py is also TRANSLATED (translate/imp2coq.py) on every run and proved equal to the model (Gen/GenImpP.v)
 generate = c05.generate
 model_cases = c05.model_cases
 impl_init = c05.impl_init
